@@ -58,6 +58,13 @@ type lm struct {
 	tainted   bool             // a known finding broke conservation for good in this world
 	stuck     error
 	genesisIssuerIn bool // some transfer targets the genesis issuer address
+	pendingCreated  []lmCreated
+}
+
+type lmCreated struct {
+	n   int
+	v   *accountant.Vertex
+	pre *sim.Snap
 }
 
 func (m *lm) label(l string) { m.labels[l]++ }
@@ -209,6 +216,7 @@ func (m *lm) drawAmount(n, from int, label string) spice.Melange {
 // ---------- observation + oracles ----------
 
 func (m *lm) observe(opDesc string) {
+	defer func() { m.pendingCreated = nil }()
 	for i, n := range m.w.Nodes {
 		prev := m.snaps[i]
 		prevConf := m.conf[i]
@@ -224,6 +232,11 @@ func (m *lm) observe(opDesc string) {
 		}
 		if len(s.Parked) > 0 {
 			m.label("state:parked-orphans")
+		}
+		for _, pc := range m.pendingCreated {
+			if pc.n == i {
+				m.oracleC09Created(i, pc.v, pc.pre, s)
+			}
 		}
 		m.oracleC01(i, prev, prevConf, s, opDesc)
 		m.oracleC03(i, prev, s, opDesc)
@@ -293,7 +306,7 @@ func (m *lm) oracleC01(i int, prev *sim.Snap, prevConf map[ref.Hash]struct{}, s 
 			case allParentsGone && m.truncated[i]:
 				sig = "root-exemption-after-truncation"
 			case m.historyHasTrustedOverdraft(H, prev, s):
-				sig = "history-contains-trusted-overdraft"
+				sig = "history-contains-earlier-overdraft"
 			}
 			m.addViol("C01", sig, "node %d after %s: %s became confirmed although its issuer received %s and needs %s in the history it builds on (ancestors + checkpoint)", i, opDesc, m.describe(v), in, need)
 		}
@@ -441,6 +454,68 @@ func (m *lm) oracleC09(i int, s *sim.Snap, opDesc string) {
 		}
 		if !ref.VertexValid(v) {
 			m.addViol("C09", "not-self-authenticating", "node %d after %s: checkpointed %s does not recompute", i, opDesc, m.describe(v))
+		}
+	}
+}
+
+// oracleC09Created: clause (iv) - a vertex created by node n (sequential proposal) references only tips of the
+// pre-state that are valid, and carries weight max(parent weights)+1.
+func (m *lm) oracleC09Created(n int, v *accountant.Vertex, pre, post *sim.Snap) {
+	tips := pre.Tips()
+	// a vertex whose every child was dropped by this very call is a tip "at that moment"
+	for h := range pre.Live {
+		if _, isTip := tips[h]; isTip {
+			continue
+		}
+		allGone := true
+		for _, c := range pre.Live {
+			for _, pp := range ref.Parents(c) {
+				if pp == h {
+					if _, still := post.Live[c.Hash]; still {
+						allGone = false
+					}
+				}
+			}
+		}
+		if allGone {
+			tips[h] = struct{}{}
+		}
+	}
+	var maxW uint64
+	for _, p := range ref.Parents(v) {
+		pv, live := pre.Live[p]
+		if !live {
+			m.addViol("C09", "created-on-unknown-parent", "node %d created %s on parent %s which was not in its live DAG", n, m.describe(v), short(p))
+			continue
+		}
+		if _, isTip := tips[p]; !isTip {
+			m.addViol("C09", "created-on-non-tip", "node %d created %s on parent %s which already had a child (not a tip at that moment)", n, m.describe(v), short(p))
+		}
+		if !ref.VertexValid(pv) {
+			m.addViol("C09", "created-on-invalid-tip", "node %d created %s on a tip that does not verify", n, m.describe(v))
+		}
+		if pv.Weight > maxW {
+			maxW = pv.Weight
+		}
+		if ref.IsSpice(pv) && p != m.w.Genesis.Hash && !pre.Trusted[pv.SignerPublicAddress] {
+			H := ref.Union(m.w.Arch.Anc(p), pre.StoredSet())
+			delete(H, p)
+			if ok, _, _ := m.covered(pv, H); !ok {
+				stIn, stOut := m.w.Arch.Flow(pre.StoredSet(), pv.Transaction.IssuerAddress)
+				if stIn.Cmp(stOut) >= 0 {
+					m.addViol("C09", "created-on-overdrawing-tip", "node %d created %s on tip %s whose transfer is not covered in its own history", n, m.describe(v), m.describe(pv))
+				}
+			}
+		}
+	}
+	if v.Weight != maxW+1 {
+		m.addViol("C09", "created-wrong-weight", "node %d created %s with weight %d; its parents' maximum weight is %d, expected %d", n, m.describe(v), v.Weight, maxW, maxW+1)
+	}
+	if len(ref.Parents(v)) == 2 {
+		m.label("c09:created-on-two-tips")
+		a, b := pre.Live[v.LeftParentHash], pre.Live[v.RightParentHash]
+		if a != nil && b != nil && a.Weight != b.Weight {
+			m.label("c09:created-on-uneven-tips")
 		}
 	}
 }
@@ -619,6 +694,7 @@ func (m *lm) opPropose() string {
 	r := m.w.Apply(sim.Op{K: "propose", N: n, From: from, To: to, C: amt.Currency, S: amt.SupplementaryCurrency, Data: data})
 	m.noteResult("C01", r, "CreateLeaf")
 	if r.Vertex != nil {
+		m.pendingCreated = append(m.pendingCreated, lmCreated{n, r.Vertex, m.snaps[n]})
 		if over {
 			m.overdraw[r.Vertex.Hash] = true
 			m.label("offer:overdraw-proposal")
